@@ -963,6 +963,11 @@ class Evaluator:
                 return [("item", it, i) for i in range(k)]
         if it[0] in ("list", "tuple") and not any(x[0] == "star" for x in it[1]):
             return list(it[1])
+        if it[0] == "ite":
+            a, b = self._static_items(it[2]), self._static_items(it[3])
+            if a is not None and b is not None and len(a) == len(b):
+                return [mk_ite(it[1], x, y) for x, y in zip(a, b)]
+            return None
         if it[0] == "call" and not it[3]:
             name = show(it[1])
             if name == "range" and 1 <= len(it[2]) <= 3:
